@@ -5,7 +5,7 @@ CONSTANTS Names <- NamesMB Depth = 3 Vals <- ValsX Sep = 46 Design = "list" Base
   Routes <- RLoadOnly Cfgs <- CfgTN SingleKinds <- None PrePaths <- None
   LoadKinds <- LoadTwo TwoFiles = TRUE EnvCalls <- None ArgCalls <- None ClearLists <- None
   MsgSets <- None MsgGets <- None NodeBases <- None FputSeps <- None
-  MaxOps = 1 MaxArr = 1 SinglesFirst = TRUE Observe = TRUE
+  MaxOps = 1 MaxArr = 1 SingleWhen = "first" QuoteSet <- AllQuotes Observe = TRUE
 CONSTRAINT Bound
 VIEW ViewX
 ACTION_CONSTRAINT EmitX
